@@ -240,11 +240,20 @@ def main():
              'loader_mismatch': 0, 'paths_states': 0, 'nested_defines': 0}
     reqs = []
     items = []
+    import c06
+    todo = []
     for i in range(n):
         prog, pop = c05_generate(rng, chk.thorough)
         if i < len(CORPUS):
             prog = CORPUS[i]
-        text = progs.render(prog)
+        todo.append((prog, progs.render(prog), True))
+    # `break` at every position of every nesting of loop / if / definition / matrix block: whatever
+    # the compiler accepts of these must be an image in which control stays inside its routine
+    # (whether it SHOULD accept them is C06's question)
+    for text, _expect, _label in c06.SCOPES:
+        todo.append(([], text, False))
+    stats['scope_texts'] = len(c06.SCOPES)
+    for prog, text, must_accept in todo:
         parser = Parser()
         chk.count()
         try:
@@ -252,6 +261,9 @@ def main():
         except Exception as ex:  # noqa
             chk.violation('compiler-raises', 'compiler raised {}'.format(type(ex).__name__),
                           {'script': text})
+            continue
+        if not ok and not must_accept:
+            stats['scope_texts_rejected'] = stats.get('scope_texts_rejected', 0) + 1
             continue
         if not ok:
             stats['rejected'] += 1
